@@ -13,6 +13,7 @@ import SuccinctlyVerif.Proof.BPTables
 import SuccinctlyVerif.Proof.BPNavEq
 import SuccinctlyVerif.Proof.BPClose3
 import SuccinctlyVerif.Proof.BPSibling
+import SuccinctlyVerif.Proof.BPFast2
 namespace SV.Props.C04
 open SV SV.BP SV.BPM
 
@@ -205,28 +206,87 @@ theorem word_summaries_exact (w : BitVec 64) (vb : Nat) (hvb : vb ≤ 64) :
   ⟨BPW.wordMinExcess_spec w vb hvb, BPW.wordMinExcessRaw_spec w vb hvb, BPW.wordMinExcessUnrolled_spec w,
     BPW.wordMaxExcessRev_spec w⟩
 
-/-- PARTIAL (`next_sibling`, `subtree_size`): both equal their linear-scan definitions for every
-constructor *provided* the method `find_close(p)` of the same structure does. Missing: the
-simulation of the seven-state loop of `find_close_from` (`fcfLoop`) against `scanClose` — i.e.
-exactness of the L1/L2 folds (`foldI16`/`foldI32` without wrap for `FACTOR_L1 = FACTOR_L2 = 32`),
-the invariant "no match in [start, pos) ∧ running excess exact" across the states, and fuel
-sufficiency; `block_min_sound` and `word_summaries_exact` above are the lemmas it rests on. The
-method `find_close` itself is covered by the correspondence check and the driver's model-vs-spec
-comparison only. -/
-theorem next_sibling_subtree_size_partial (simd owned : Bool) (ws : List (BitVec 64)) (len : Nat) (k : SelKind) (p : Nat)
-    (hw : ws.length = (len + 63) / 64) (hlen : len < 2 ^ 32)
-    (hfc : ∀ I, construct simd owned ws len k = some I → I.findClose p = BP.findClose (bitsOf ws len) p) :
-    (construct simd owned ws len k).map (fun I => (I.nextSibling p, I.subtreeSize p)) =
+/-- **Index exactness** (scalar builders): every L0 / L1 / L2 entry is the (minimum prefix excess,
+total excess) of the bits of its 64- / 2048- / 65536-bit block. The width side conditions are
+discharged from the generated constants: `i8` clamp (a word's minimum is within ±64), `i16` fold
+(`64 · FACTOR_L1 = 2048 ≤ 2^15`), `i32` fold (`2048 · FACTOR_L2 = 65536 ≤ 2^31`). -/
+theorem index_exact (st : List (BitVec 64)) (len : Nat) (hw : st.length = (len + 63) / 64) (hne : st ≠ []) :
+    buildL0 st len = ((List.range' 0 st.length).map fun i => BPI.summ (BPI.blk (bitsOf st len) 64 (64 * i))) ∧
+    buildL1 (buildL0 st len) =
+      ((List.range' 0 ((st.length + 31) / 32)).map fun j => BPI.summ (BPI.blk (bitsOf st len) 2048 (2048 * j))) ∧
+    buildL2 (buildL1 (buildL0 st len)) =
+      ((List.range' 0 (((st.length + 31) / 32 + 31) / 32)).map fun j =>
+        BPI.summ (BPI.blk (bitsOf st len) 65536 (65536 * j))) :=
+  BPI.index_exact st len hw hne
+
+/-- `find_close_in_word_fast` (partial first byte, full bytes through `BYTE_MIN_EXCESS` /
+`BYTE_FIND_CLOSE` with the bit-scan fallback, partial last byte) = the forward scan over the valid
+bits of the word, for every word, start bit, start excess ≥ 1 and `valid_bits ≤ 64`. -/
+theorem find_close_in_word_fast_eq (w : BitVec 64) (sb : Nat) (e : Int) (vb : Nat) (h1 : sb < vb) (h2 : vb ≤ 64)
+    (he : 1 ≤ e) :
+    findCloseInWordFast w sb e vb = scanClose (BPW.seg w sb (vb - sb)) sb (e - 1).toNat :=
+  BPF.fast_spec w sb e vb h1 h2 he
+
+/-- `find_close_from(start, e)` (the seven-state `ScanWord/CheckL0/1/2/FromL0/1/2` loop over the
+exact index, `e ≥ 1`) = first position `≥ start` where the running excess reaches 0, for the scalar
+index builders (`simd = false`), every storage / select support, `|ws| = ⌈len/64⌉`, `len < 2^31`
+(so the `i32` excess cannot wrap). Proof: invariant "no match in `[start, pos)` ∧ running excess
+exact" (`BPF.fcfLoop_sound`), block skipping by `block_min_sound` over `index_exact`, the dead
+`is_close(pos) && excess <= 1` branches shown unreachable, termination measure
+`7·(word boundaries left) + rank(state)` below the model's fuel. -/
+theorem find_close_from_eq (owned : Bool) (ws : List (BitVec 64)) (len : Nat) (k : SelKind) (start e : Nat)
+    (hw : ws.length = (len + 63) / 64) (hlen : len < 2 ^ 31) (he : 1 ≤ e) (hb : e + (len - start) < 2 ^ 31) :
+    (construct false owned ws len k).map (fun I => I.findCloseFrom start e) =
+      some (BP.findCloseFrom (bitsOf ws len) start e) := by
+  obtain ⟨h1, h2⟩ := stored_ok owned ws len hw
+  rw [construct_some false owned ws len k (by omega), Option.map_some,
+    BPF.findCloseFrom_eq _ len k h1 hlen start e (by omega) (by omega), h2]
+  unfold BPF.R BP.findCloseFrom
+  have : ¬ e = 0 := by omega
+  simp only [this, if_false]
+  congr 2
+  omega
+
+/-- Method `find_close(p)` = matching close by the left-to-right scan (scalar builders). -/
+theorem method_find_close_eq (owned : Bool) (ws : List (BitVec 64)) (len : Nat) (k : SelKind) (p : Nat)
+    (hw : ws.length = (len + 63) / 64) (hlen : len < 2 ^ 31) :
+    (construct false owned ws len k).map (fun I => I.findClose p) = some (BP.findClose (bitsOf ws len) p) := by
+  obtain ⟨h1, h2⟩ := stored_ok owned ws len hw
+  rw [construct_some false owned ws len k (by omega), Option.map_some, BPF.findClose_eq _ len k h1 hlen p, h2]
+
+example : (construct false false [0xFFFFFFFFFFFFFFCB#64] 6 .noSelect).map (fun I => I.findClose 0) = some (some 5) := by
+  decide +kernel
+
+/-- `next_sibling(p)` and `subtree_size(p)` = their linear-scan definitions (scalar builders). -/
+theorem next_sibling_subtree_size_eq (owned : Bool) (ws : List (BitVec 64)) (len : Nat) (k : SelKind) (p : Nat)
+    (hw : ws.length = (len + 63) / 64) (hlen : len < 2 ^ 31) :
+    (construct false owned ws len k).map (fun I => (I.nextSibling p, I.subtreeSize p)) =
       some (BP.nextSibling (bitsOf ws len) p, BP.subtreeSize (bitsOf ws len) p) := by
   obtain ⟨h1, h2⟩ := stored_ok owned ws len hw
-  have hc := construct_some simd owned ws len k hlen
-  have hfc' := hfc _ hc
-  rw [← h2] at hfc'
-  rw [hc, Option.map_some, BPS.nextSibling_of_findClose simd _ len k p h1 hfc',
-    BPS.subtreeSize_of_findClose simd _ len k p h1 hfc', h2]
+  have hfc := BPF.findClose_eq _ len k h1 hlen p
+  rw [construct_some false owned ws len k (by omega), Option.map_some,
+    BPS.nextSibling_of_findClose false _ len k p h1 hfc, BPS.subtreeSize_of_findClose false _ len k p h1 hfc, h2]
 
 example : (construct false true [0xFFFFFFFFFFFFFFCB#64] 6 .noSelect).map (fun I => (I.nextSibling 1, I.subtreeSize 0)) =
     some (some 3, some 2) := by decide +kernel
+
+/-- PARTIAL (`simd` build): `find_close` / `find_close_from` / `next_sibling` / `subtree_size` with
+the SSE4.1 L1/L2 builders are reduced to the scalar case *provided* the lane model of the SSE4.1
+builders yields the same L1/L2 arrays (then the two structures are identical). Missing:
+`sse41_builders_eq_scalar`, i.e. `buildL1Sse = buildL1` (all inputs) and `buildL2Sse = buildL2`
+(L1 lanes within ±2048) for the lane model (byte-shift prefix sums in wrapping `i16`, `PHMINPOSUW`
+with the 0x8000 bias, horizontal sum); the driver evaluates both builders on every request and
+reports `MODEL-SSE` on any difference, and the `simd` harness build is diffed against the model. -/
+theorem simd_reduces_to_scalar_partial (st : List (BitVec 64)) (len : Nat) (k : SelKind)
+    (h1 : buildL1Sse (if st.isEmpty ∨ len = 0 then [] else buildL0 st len) =
+          buildL1 (if st.isEmpty ∨ len = 0 then [] else buildL0 st len))
+    (h2 : buildL2Sse (buildL1 (if st.isEmpty ∨ len = 0 then [] else buildL0 st len)) =
+          buildL2 (buildL1 (if st.isEmpty ∨ len = 0 then [] else buildL0 st len))) :
+    mkBP true st len k = mkBP false st len k := by
+  unfold mkBP
+  simp only [if_true, Bool.false_eq_true, if_false, h1, h2]
+
+example : buildL1Sse [(-1, 1), (0, 2)] = buildL1 [(-1, 1), (0, 2)] := by decide +kernel
 
 /-! ### storage, stray bits, select support, build variant -/
 
@@ -273,36 +333,5 @@ theorem select1_noselect_partial (simd owned : Bool) (ws : List (BitVec 64)) (le
 
 example : (construct false true [0xB#64] 6 .noSelect).map (fun I => I.select1 0) = some none := by decide +kernel
 
-/-- PARTIAL (method `find_close`): the guards — `p ≥ len` or a close at `p` gives `None`, as the
-linear-scan definition does. Missing: the open case, i.e. `find_close_from(p + 1, 1)` =
-`scanClose (bits.drop (p+1)) (p+1) 0` (see `next_sibling_subtree_size_partial` for what that
-needs). -/
-theorem method_find_close_guard_partial (simd owned : Bool) (ws : List (BitVec 64)) (len : Nat) (k : SelKind) (p : Nat)
-    (hw : ws.length = (len + 63) / 64) (hlen : len < 2 ^ 32)
-    (hg : ¬ BP.isOpen (bitsOf ws len) p = true) :
-    (construct simd owned ws len k).map (fun I => I.findClose p) = some (BP.findClose (bitsOf ws len) p) := by
-  obtain ⟨h1, h2⟩ := stored_ok owned ws len hw
-  rw [construct_some simd owned ws len k hlen, Option.map_some]
-  have hl := BPP.bitsOf_length ws len (by omega)
-  have hspec : BP.findClose (bitsOf ws len) p = none := by
-    unfold BP.findClose; unfold BP.isOpen at hg
-    have : ¬ (bitsOf ws len)[p]? = some true := by simpa using hg
-    simp [this]
-  rw [hspec]
-  unfold BPM.BP.findClose
-  rw [BPR.isClose_eq simd _ len k p h1, h2]
-  have hlenf : (mkBP simd (if owned then maskFinalWord ws len else ws) len k).len = len := rfl
-  rw [hlenf]
-  by_cases hp : p ≥ len
-  · simp [hp]
-  · have hp' : p < (bitsOf ws len).length := by omega
-    unfold BP.isClose
-    unfold BP.isOpen at hg
-    rw [List.getElem?_eq_getElem hp'] at hg ⊢
-    cases hb : (bitsOf ws len)[p]
-    · simp
-    · simp [hb] at hg
-
-example : ¬ BP.isOpen (bitsOf [0xB#64] 6) 2 = true := by decide +kernel
 
 end SV.Props.C04
